@@ -1,12 +1,18 @@
 """Driver side of the executor protocol: one long-lived cx-exec process per build configuration."""
+import os
 import subprocess
 import threading
+import time
 
 from . import builds
 
 
 class MachineryError(Exception):
     pass
+
+
+# a program that produces no answer for this long is treated as hanging (the executor flushes at least every 200 ms of work)
+HANG_S = float(os.environ.get("VERIF_HANG_S", "90"))
 
 
 class Executor:
@@ -47,29 +53,40 @@ class Executor:
 
     def run_many(self, programs):
         """programs: list of program strings ('op;op;...'). Returns a list of observation lists.
-        A program during which the executor process dies gets the observation list ['CRASH'] after the
-        death has been reproduced on that program alone in a fresh process."""
+        A program during which the executor process dies (or stops answering for HANG_S seconds and is killed) gets the observation
+        list ['CRASH'] (['HANG']) after that has been reproduced on that program alone in a fresh process. Responses are
+        buffered by the executor, so after a death the programs from the first unanswered one on are re-run one at a time until
+        the one that dies alone is found."""
         results = [None] * len(programs)
         start = 0
         while start < len(programs):
-            done = self._run_batch(programs, start, results)
+            done, _ = self._run_batch(programs, start, results)
             if done == len(programs):
                 break
-            # the process died while program `done` was outstanding: reproduce alone
             self._kill()
             self.restarts += 1
-            alone = [None]
-            d2 = self._run_batch([programs[done]], 0, alone)
-            if d2 == 1:
-                # did not reproduce: machinery problem, not a verdict
-                raise MachineryError("executor %s died on a batch but not on the program alone: %s"
+            j = done
+            culprit = None
+            while j < len(programs):
+                alone = [None]
+                d2, hung = self._run_batch([programs[j]], 0, alone)
+                if d2 == 1:
+                    results[j] = alone[0]
+                    j += 1
+                    continue
+                culprit = j
+                results[j] = ["HANG" if hung else "CRASH"]
+                self._kill()
+                break
+            if culprit is None:
+                # nothing dies alone: machinery problem, not a verdict
+                raise MachineryError("executor %s died on a batch but on none of its programs alone (first unanswered: %s)"
                                      % (self.build, programs[done][:200]))
-            self._kill()
-            results[done] = ["CRASH"]
-            start = done + 1
+            start = culprit + 1
         return results
 
     def _run_batch(self, programs, start, results):
+        """-> (index of the first program without an answer, killed-by-watchdog?)"""
         if self.proc is None or self.proc.poll() is not None:
             self._start()
         proc = self.proc
@@ -89,29 +106,48 @@ class Executor:
 
         t = threading.Thread(target=writer, daemon=True)
         t.start()
+        state = {"last": time.time(), "done": False, "hung": False}
+
+        def watchdog():
+            while not state["done"]:
+                time.sleep(0.5)
+                if not state["done"] and time.time() - state["last"] > HANG_S:
+                    state["hung"] = True
+                    try:
+                        proc.kill()
+                    except Exception:
+                        pass
+                    return
+
+        wd = threading.Thread(target=watchdog, daemon=True)
+        wd.start()
         i = start
         r = proc.stdout
-        while i < len(programs):
-            line = r.readline()
-            if not line:
-                break
-            line = line.decode().rstrip("\n")
-            sp = line.find(" ")
-            rid = line if sp < 0 else line[:sp]
-            if rid != str(base + i - start):
-                raise MachineryError("protocol error: expected id %d got %r" % (base + i - start, line[:80]))
-            rest = "" if sp < 0 else line[sp + 1:]
-            obs = rest.split(";") if rest else []
-            results[i] = obs
-            self.programs_run += 1
-            self.ops_run += len(obs)
-            i += 1
+        try:
+            while i < len(programs):
+                line = r.readline()
+                if not line:
+                    break
+                state["last"] = time.time()
+                line = line.decode().rstrip("\n")
+                sp = line.find(" ")
+                rid = line if sp < 0 else line[:sp]
+                if rid != str(base + i - start):
+                    raise MachineryError("protocol error: expected id %d got %r" % (base + i - start, line[:80]))
+                rest = "" if sp < 0 else line[sp + 1:]
+                obs = rest.split(";") if rest else []
+                results[i] = obs
+                self.programs_run += 1
+                self.ops_run += len(obs)
+                i += 1
+        finally:
+            state["done"] = True
         if i < len(programs):
             # process died; writer thread ends with a broken pipe
             t.join(timeout=5)
-            return i
+            return i, state["hung"]
         t.join()
-        return i
+        return i, False
 
     def run(self, program):
         return self.run_many([program])[0]
